@@ -437,3 +437,7 @@ func ChoosePhases(phases []Phase, then func(*Sched, []*Thread) *Thread) func(*Sc
 		return then(s, r)
 	}
 }
+
+// SeedJitter makes the jitter sequence of this process differ from that of
+// its siblings (the generator is a counter hash starting at zero).
+func SeedJitter(seed uint64) { jitterCtr.Store(seed) }
